@@ -352,7 +352,7 @@ def equal(t1, t2, N=None, limit=4096, with_unordered=False):
 # ---------------------------------------------------------------------------------------------------------------------
 # Real-arithmetic equality is blind to two things a floating-point program can do to a formula without changing its
 # rational normal form: add and subtract the same (large) quantity, and multiply something possibly non-finite by 0.
-def hazards(t, N=None, ratio=1000):
+def hazards(t, N=None, ratio=16):
     """-> list of descriptions.  For every additive tree of the term (maximal chains of + / - / neg, whatever they sit in) the
     summands are normalised one by one and then added twice: with their signs, and with all coefficients made positive.  A
     monomial whose signed coefficient is 0 (or `ratio` times smaller than the unsigned one) is a quantity that the code adds
